@@ -8,3 +8,4 @@ CONSTANTS
   Focus = "all"
 INVARIANTS TypeOK
 CHECK_DEADLOCK FALSE
+PROPERTIES CapacityMonotone RenewalResets
